@@ -321,7 +321,7 @@ func runConfine(o *Options, sp *Specs, ev *Evidence) (int, *Evidence) {
 		}
 		return 1, ev
 	}
-	fmt.Printf("OK property=C20 obligations=%d discharged=%d types=%d\n", nOb, nDis, len(types_))
+	fmt.Printf("CONFINE-OK property=C20 confinement obligations=%d discharged=%d types=%d\n", nOb, nDis, len(types_))
 	return 0, ev
 }
 
